@@ -142,13 +142,13 @@ func registerResolver() {
 	})
 	register(&PropSpec{
 		ID: "C05", Pkg: "argmapper", SchedDependent: true,
-		Quick: []Shard{sh("HarnessShapes", "statically declared structs: marker last / in the middle, on the only derivation path (Call and Redefine)", 0, 0),
+		Quick: []Shard{sh("HarnessC05Gen", "converters from a name-sensitive generator, 2 named values, insertion order", 0, 2, 0), sh("HarnessC05Gen", "generator, 3 named values, flip at Graph.Vertices", 0, 3, 103), sh("HarnessShapes", "statically declared structs: marker last / in the middle, on the only derivation path (Call and Redefine)", 0, 0),
 			world("HarnessC05", 0, 1, 1, 11, 1, 102), world("HarnessC05", 0, 1, 1, 1111, 1, 0), world("HarnessC05", 1, 1, 1, 1111, 1, 1), world("HarnessC05", 0, 1, 1, 1121, 1, 0), world("HarnessC05", 101, 0, 0, 0, 9, 0, 2), world("HarnessC05", 104, 0, 0, 0, 0, 100, 2), world("HarnessC05", 106, 0, 0, 0, 1, 0, 2), world("HarnessC05", 5, 1, 1, 2111, 0, 0, 2), world("HarnessC05", 0, 1, 1, 91, 9, 0, 2), world("HarnessC05", 0, 1, 1, 11, 9, 0, 16), world("HarnessC05", 108, 0, 0, 0, 1, 0), world("HarnessC05", 9, 1, 1, 11, 1, 0),
 		},
-		Thorough: []Shard{sh("HarnessShapes", "statically declared structs: marker last / in the middle, on the only derivation path (Call and Redefine)", 0, 0),
+		Thorough: []Shard{sh("HarnessC05Gen", "converters from a name-sensitive generator, 2 named values, insertion order", 0, 2, 0), sh("HarnessC05Gen", "generator, 3 named values, flip at Graph.Vertices", 0, 3, 103), sh("HarnessC05Gen", "generator, 3 named values, flip product at the path-selection sites", 0, 3, 100), sh("HarnessC05Gen", "generator, 2 named values, seeded orders 1", 0, 2, 1), sh("HarnessC05Gen", "generator, 3 named values, seeded orders 2", 0, 3, 2), sh("HarnessShapes", "statically declared structs: marker last / in the middle, on the only derivation path (Call and Redefine)", 0, 0),
 			world("HarnessC05", 0, 1, 1, 11, 1, 102), world("HarnessC05", 0, 1, 1, 1111, 1, 0), world("HarnessC05", 1, 1, 1, 1111, 1, 1), world("HarnessC05", 0, 1, 1, 1121, 1, 0), world("HarnessC05", 101, 0, 0, 0, 9, 0, 2), world("HarnessC05", 104, 0, 0, 0, 0, 100, 2), world("HarnessC05", 106, 0, 0, 0, 1, 0, 2), world("HarnessC05", 5, 1, 1, 2111, 0, 0, 2), world("HarnessC05", 0, 1, 1, 91, 9, 0, 2), world("HarnessC05", 0, 1, 1, 1111, 1, 100), world("HarnessC05", 0, 1, 1, 111111, 1, 0), world("HarnessC05", 3, 1, 1, 11, 0, 0), world("HarnessC05", 3, 1, 0, 1111, 0, 0), world("HarnessC05", 0, 2, 1, 1111, 1, 2), world("HarnessC05", 4, 1, 1, 1111, 1, 0), world("HarnessC05", 5, 1, 2, 211111, 0, 0), world("HarnessC05", 5, 1, 1, 111111, 0, 0, 2), world("HarnessC05", 100, 0, 0, 0, 9, 0, 2), world("HarnessC05", 102, 0, 0, 0, 9, 0, 2), world("HarnessC05", 105, 0, 0, 0, 1, 100), world("HarnessC05", 105, 0, 0, 0, 9, 0),
 		},
-		Covers:   []string{"C05.shapes-checked", "C05.call-returned", "C05.derivable-world", "C05.converter-used", "C05.stability-checked"},
+		Covers:   []string{"C05.gen-checked", "C05.shapes-checked", "C05.call-returned", "C05.derivable-world", "C05.converter-used", "C05.stability-checked"},
 		Bounds:   []string{"converter sets of up to 2 (quick) / 3 (thorough) converters with symbolic labels, including 2-cycles and bidirectional pairs (single-input) and acyclic 2-input converters", "stability: the same call repeated in one path under two independent iteration-order choices (per-site flips, or seeded vectors)"},
 		Outside:  []string{"more than 3 converters", "iteration orders outside the named policies"},
 		Assume:   common,
